@@ -91,6 +91,11 @@ def main(argv):
                                          gen.hx(gen.rbytes(rng, rng.choice([0, 1, 7, 8, 15, 16, 17, 24, 64, 200]), False)))
                        for _k in range(rng.randint(1, 3)))
         lines.append("priv %d %s %s" % (alg, gen.rbytes(rng, 16, False).hex(), ops))
+    # decrypt asked of a key that holds no privacy algorithm (what a noAuth / auth-only session does with an OCTET STRING msgData)
+    for _ in range(60 if thorough else 20):
+        ops = ["d,%s,%d,%d,%s" % (gen.rbytes(rng, rng.choice([0, 8]), False).hex() or "-", rng.randrange(2 ** 31), rng.randrange(2 ** 31),
+                                  gen.rbytes(rng, rng.choice([0, 8, 16, 40]), False).hex() or "-") for _k in range(rng.randint(1, 3))]
+        lines.append("priv 0 - %s" % "|".join(ops))
     # long decrypt histories on one key object: many large ciphertexts between two requests (the cipher keeps a private buffer)
     for _ in range(400 if thorough else 80):
         alg = rng.choice([1, 2])
@@ -172,6 +177,9 @@ def main(argv):
                         defect["privparams"] = gen.hx(gen.rbytes(rng, rng.choice([0, 1, 7, 9])))
                     elif t == 4 and ver == "v3":
                         defect["pdu_tag"] = 0xA8
+                    elif t == 5 and ver == "v3":
+                        # msgData in the encrypted shape (an OCTET STRING) whatever the session's security level
+                        defect["octet_data"] = gen.hx(gen.rbytes(rng, rng.choice([0, 8, 16, 33])))
                     good = {"vbs": ber.varbind(ber.enc_oid([1, 3, 6, 9]), ber.enc_value("int", 1)).hex()}
                     args = {"get": ["1.3.6.1.2.1.1.5.0"], "get_many": [["1.3.6.1.2.1.1.5.0", "1.3.6.1.2.1.1.6.0"]],
                             "getnext": ["1.3.6.1.2.1.1"], "getbulk": ["1.3.6.1.2.1.1", 5], "refresh": []}[op]
